@@ -204,6 +204,12 @@ def find_again(vi: int, named: bool, store: int):
                     parts = FunctionReference.parse_qualified_name(r.qualified_name)
                     check("listed-parts", (parts["cluster"], parts["module"], parts["function"], parts["version"])
                           == (cluster, prog.name, "f", version), parts)
+                    # a caller that edits the parts it was given does not change what the next parse returns
+                    parts.pop("version")
+                    parts["module"] = "edited"
+                    again = FunctionReference.parse_qualified_name(r.qualified_name)
+                    check("parse-result-is-not-shared-with-earlier-callers", (again["cluster"], again["module"], again["function"], again.get("version"))
+                          == (cluster, prog.name, "f", version), again)
                     check("listed-reference-is-local", not r.external, repr(r))
             f.forget(1)
             check("forget-then-miss", f.memento(1) is None, None)
